@@ -125,7 +125,7 @@ func c13Twin(sig []byte) []byte {
 	return out
 }
 
-var c13VariantNames = []string{"bitflip-s", "bitflip-v", "bitflip-r", "vflag", "other-id-sibling", "malleable-twin",
+var c13VariantNames = []string{"bitflip-s", "bitflip-v", "bitflip-r", "vflag", "other-id-sibling", "replayed-on-sibling", "replayed-on-sibling", "malleable-twin",
 	"other-key", "len64-noV", "component-out-of-range", "contract-sender", "other-id-random", "swap-r-s", "wrong-length",
 	"empty", "random-65", "genuine"}
 
@@ -159,6 +159,32 @@ func c13DrawVariant(rt *rapid.T, base *hsTx, genuine []byte) c13Variant {
 			return c13Variant{"genuine", sig, base}
 		}
 		return c13Variant{name, hsSignRSV(base.key, sib.id()), base}
+	case "replayed-on-sibling":
+		// signature reuse: the genuine signature of the base transaction (which the node has just
+		// verified and accepted) is attached to another transaction of the same sender
+		sib := *base
+		sib.obj = base.obj.clone()
+		switch rapid.IntRange(0, 3).Draw(rt, "replayField") {
+		case 0:
+			sib.timestamp = base.timestamp + 1
+			sib.set("timestamp", hsS(hsHexInt(big.NewInt(sib.timestamp))))
+		case 1:
+			sib.stepLimit = new(big.Int).Add(base.stepLimit, big.NewInt(1))
+			sib.set("stepLimit", hsS(hsHexInt(sib.stepLimit)))
+		case 2:
+			sib.value = big.NewInt(0)
+			if base.value != nil {
+				sib.value = new(big.Int).Add(base.value, big.NewInt(1))
+			}
+			sib.set("value", hsS(hsHexInt(sib.value)))
+		default:
+			sib.to = hsDrawAddr(rt, "replayTo")
+			sib.set("to", hsS(sib.to))
+		}
+		if bytes.Equal(sib.id(), base.id()) {
+			return c13Variant{"genuine", sig, base}
+		}
+		return c13Variant{name, sig, &sib}
 	case "bitflip-r", "bitflip-s", "bitflip-v":
 		lo, n := 0, 32
 		if name == "bitflip-s" {
